@@ -46,6 +46,7 @@ type Enc struct {
 	serial    int
 	refSerial map[string]int
 	dry       int // >0 while dry-running a loop body to find its write set
+	caseKey   string
 }
 
 type WatchTerm struct {
@@ -442,7 +443,7 @@ type BState struct {
 
 func (fr *Frame) oname(kind string) string {
 	fr.ord[kind]++
-	return fmt.Sprintf("%s#%s%s:%d", funcKey(fr.e.top.fn), fr.callpath, kind, fr.ord[kind])
+	return fmt.Sprintf("%s#%s%s:%d", fr.e.topKey(), fr.callpath, kind, fr.ord[kind])
 }
 
 func (fr *Frame) pos(p token.Pos) string {
@@ -738,4 +739,11 @@ func (fr *Frame) setEdge(from, to *ssa.BasicBlock, reach string, h *Heap) {
 		return
 	}
 	fr.edges[[2]int{from.Index, to.Index}] = edgeInfo{reach: reach, heap: h}
+}
+
+func (e *Enc) topKey() string {
+	if e.caseKey != "" {
+		return strings.Replace(e.caseKey, "#case", "@case", 1)
+	}
+	return funcKey(e.top.fn)
 }
